@@ -456,6 +456,76 @@ pub fn run(ctx: &Ctx) -> Report {
         rep.counters.inc("errors_flushed_before_the_connection_ended_with_quit");
     });
     rep.merge(r);
+    // ---- an error reported for the command that follows a reply of exactly 254..258 / 510..514 packets
+    //      (anything that takes "the sequence id is where it started" for "nothing was sent" is wrong
+    //      at 256 and 512): the ERR is that command's reply, with its own code, SQLSTATE and message
+    let lens: Vec<usize> = if ctx.miri { vec![3] } else { vec![249, 250, 251, 252, 253, 254, 255, 505, 506, 507, 508, 509, 510] };
+    let r = par_cases(ctx, "C13", "errors-behind-long-replies", lens.len() as u64 * 3, |rng, i, rep| {
+        let nrows = lens[i as usize / 3];
+        let (name, code) = &kinds_ref[rng.usize(kinds_ref.len())];
+        let code = *code;
+        let msg = messages(rng);
+        let cols = vec![simple_col("a", ColumnType::MYSQL_TYPE_LONG)];
+        let mut ops = vec![QOp::Start(0)];
+        for k in 0..nrows {
+            ops.push(QOp::Row(vec![Cell::val(V::I32(k as i32))], RowForm::Owned));
+        }
+        // the long reply itself ends with EOF, or with an error of its own
+        let own_err = i % 3 == 2;
+        if own_err {
+            ops.push(QOp::FinishErr(1105, b"first".to_vec()));
+        } else {
+            ops.push(QOp::Finish);
+        }
+        let q = |ops: Vec<QOp>| Script::Q(QProg { colsets: vec![cols.clone()], ops, on_err: OnErr::Drop });
+        let bin = i % 3 == 1;
+        let mut cmds = vec![Cmd::prepare(b"p")];
+        let mut scripts = vec![Script::PrepOk { id: 1, params: vec![], cols: cols.clone() }];
+        cmds.push(if bin { Cmd::execute_plain(1, &[], false) } else { Cmd::query(b"long") });
+        scripts.push(q(ops));
+        cmds.push(Cmd::query(b"fails"));
+        scripts.push(q(vec![QOp::Error(code, msg.clone())]));
+        cmds.push(Cmd::ping());
+        let mut case = Case::new(cmds, scripts);
+        if rng.bool() {
+            case.arrival = Arrival::Pipelined(1);
+        }
+        let obs = run_case(&case);
+        rep.evaluations += 1;
+        let packets = 1 + 1 + 1 + nrows + 1;
+        rep.counters.class(format!("error behind a reply of {} packets", packets));
+        if harness_panic(&obs, rep) {
+            return;
+        }
+        let d = || J::obj().set("kind", name.clone()).set("code", code).set("message", show(&msg)).set("packets_of_the_reply_before", packets).set("outcome", obs.outcome.describe());
+        let dec = match decode_output(&obs) {
+            Ok(x) => x.2,
+            Err(e) => {
+                rep.violations.push(viol("C13", "C13 bad-framing".into(), e, d()));
+                return;
+            }
+        };
+        // greeting, auth, prepare, the long reply, then the failing query's reply
+        let errp = match dec.resps.get(4) {
+            Some(Resp::Parts(parts)) if parts.len() == 1 => match &parts[0] {
+                Part::Err(e) => Some(e.clone()),
+                _ => None,
+            },
+            _ => None,
+        };
+        let Some(e) = errp else {
+            rep.violations.push(viol("C13", "C13 no-err-packet @ behind a long reply".into(), format!("the command behind a reply of {} packets was answered by {:?}, the shim reported ({}, {})", packets, dec.resps.get(4).map(|r| format!("{:?}", r).chars().take(160).collect::<String>()), code, show(&msg)), d()));
+            return;
+        };
+        let want_state = *ErrorKind::from(code).sqlstate();
+        if e.code != code || e.state != want_state || e.msg != msg {
+            rep.violations.push(viol("C13", "C13 err-differs @ behind a long reply".into(), format!("ERR packet carries ({}, {}, {}) but the shim reported ({}, {}, {})", e.code, show(&e.state), show(&e.msg), code, show(&want_state), show(&msg)), d()));
+            return;
+        }
+        rep.counters.inc("err_packets_compared");
+        rep.counters.inc("errors_behind_long_replies_compared");
+    });
+    rep.merge(r);
     // ---- several errors on one connection: the same kind again and again, texts of the same length
     //      that differ in a few characters ("Unknown table 't7'" / "Unknown table 't8'"), formatted by
     //      the backend into one reused buffer (same address) - every ERR carries its own text
